@@ -33,7 +33,8 @@ RULE = (
     "step ends); non-trivial = >= 1 rejection and >= 1 interpolation; distinct by JSON hash"
 )
 ASSUMPTIONS = ["x64; the scripted solver advances t exactly as a real one (t + dt)"]
-REQUIRED_LABELS = ["clip", "noclip", "ctrl:integral", "ctrl:pi", "branch:at_t1", "branch:beyond", "rejection", "clip_taken", "ckpt_skipped_without_step"]
+REQUIRED_LABELS = ["clip", "noclip", "ctrl:integral", "ctrl:pi", "branch:at_t1", "branch:beyond", "rejection", "clip_taken", "ckpt_skipped_without_step",
+                   "mode:save_at", "mode:machine", "mode:every_step", "op:at_proposal", "op:in_step", "op:near_now"]
 MAX_INCONCLUSIVE = 0.3
 ATTEMPT_BUDGET = 3000
 REPORT_BUDGET = 200  # interpolation reports per run (there are at most NUM_CKPT + 1 legitimate ones)
@@ -112,18 +113,14 @@ class Log:
 _CACHE = {}
 
 
-def _runner(kind, clip, num_save):
-    key = (kind, clip, num_save)
-    if key in _CACHE:
-        return _CACHE[key]
+def _parts(kind, log):
+    """Scripted Solver / error estimator factory / recording controller factory (public protocols)."""
     import jax
     import jax.numpy as jnp
     from jax.experimental import io_callback
 
     from probdiffeq import ivpsolve
     from probdiffeq._probdiffeq import utilities  # InterpResult container (public via probdiffeq.probdiffeq too)
-
-    log = Log()
 
     class FakeSolver:
         is_suitable_for_save_at = True
@@ -173,7 +170,7 @@ def _runner(kind, clip, num_save):
             jax.debug.callback(log.add("ctrl"), dt, error_power, dt_out, mem_in, mem_out, ordered=True)
             return dt_out, new
 
-    def run(save_at, dt0, eps, breaks, values, p, cparams):
+    def make_error(breaks, values, p):
         class FakeError:
             def init_error(self):
                 return jnp.zeros(())
@@ -189,12 +186,33 @@ def _runner(kind, clip, num_save):
                 # the state handed to an attempt must be the one that belongs to the state the attempt starts from
                 return ep, state + 1.0
 
+        return FakeError()
+
+    def make_control(cparams):
         if kind == "pi":
             ctrl = ivpsolve.control_proportional_integral(safety=cparams[0], factor_min=cparams[1], factor_max=cparams[2],
                                                           exponent_integral=cparams[3], exponent_proportional=cparams[4])
         else:
             ctrl = ivpsolve.control_integral(safety=cparams[0], factor_min=cparams[1], factor_max=cparams[2])
-        solve = ivpsolve.solve_adaptive_save_at(solver=FakeSolver(), error=FakeError(), control=RecControl(ctrl), clip_dt=clip, warn=False)
+        return RecControl(ctrl)
+
+    return FakeSolver, make_error, make_control
+
+
+def _runner(kind, clip, num_save):
+    key = (kind, clip, num_save)
+    if key in _CACHE:
+        return _CACHE[key]
+    import jax
+    import jax.numpy as jnp
+
+    from probdiffeq import ivpsolve
+
+    log = Log()
+    FakeSolver, make_error, make_control = _parts(kind, log)
+
+    def run(save_at, dt0, eps, breaks, values, p, cparams):
+        solve = ivpsolve.solve_adaptive_save_at(solver=FakeSolver(), error=make_error(breaks, values, p), control=make_control(cparams), clip_dt=clip, warn=False)
         sol = solve(jnp.zeros(()), save_at=save_at, atol=1.0, rtol=1.0, dt0=dt0, eps=eps, damp=0.0)
         return sol.t, sol.u, sol.num_steps
 
@@ -251,8 +269,34 @@ def _history(draw):
     return case
 
 
+OPS = ["at_proposal", "at_proposal", "inside_proposal", "far", "near_now", "in_step", "in_step", "pair"]
+
+
+@st.composite
+def _machine(draw):
+    """Operation sequence for the model-based driver: every operation requests the next time *relative to the
+    current state of the loop* (the end of the step the controller is about to propose, inside that step, just
+    ahead of the current time, inside the step that has just overshot, closer than eps to the previous request)."""
+    case = draw(_history())
+    del case["place"]
+    case["mode"] = "machine"
+    case["ops"] = draw(st.lists(st.fixed_dictionaries(dict(kind=st.sampled_from(OPS), frac=st.floats(0.05, 0.95), delta=st.sampled_from(DELTAS))),
+                                min_size=3, max_size=8))
+    return case
+
+
+@st.composite
+def _every_step(draw):
+    case = draw(_history())
+    del case["place"]
+    case["mode"] = "every_step"
+    # final time relative to a natural step end of the probe run (the driver's loop condition and the clip branch meet here)
+    case["end"] = dict(step=draw(st.integers(1, 12)), delta=draw(st.sampled_from(DELTAS + ["+half_step", "-half_step"])))
+    return case
+
+
 def strategy(ctx):
-    return _history()
+    return st.one_of(_history(), _history(), _history(), _machine(), _every_step())
 
 
 def _args(case):
@@ -300,6 +344,10 @@ def check_case(case):
     res.label("clip" if clip else "noclip", f"ctrl:{kind}")
     breaks, values, cparams = _args(case)
     eps, T = case["eps"], case["T"]
+    mode = case.get("mode", "save_at")
+    res.label(f"mode:{mode}")
+    if mode == "machine":
+        return _check_machine(res, case, breaks, values, cparams)
 
     # probe run without checkpoints and without clipping: natural step ends
     (_, _, _), ev0, over0 = _runner(kind, False, 2)([0.0, T], case["dt0"], eps, breaks, values, case["p"], cparams)
@@ -309,6 +357,8 @@ def check_case(case):
     step_ends = [e[4] for e in acc0]
     if not step_ends:
         raise common.Inconclusive("probe run without accepted steps")
+    if mode == "every_step":
+        return _check_every_step(res, case, breaks, values, cparams, step_ends)
     save_at = _checkpoints(case, step_ends)
 
     (ts, us, nsteps), ev, over = _runner(kind, clip, len(save_at))(save_at, case["dt0"], eps, breaks, values, case["p"], cparams)
@@ -318,7 +368,157 @@ def check_case(case):
     return res
 
 
-def _monitor(res, case, save_at, ts, us, nsteps, ev):
+def _delta(name, eps, ref, half=0.0):
+    return {"0": 0.0, "+ulp": np.spacing(ref), "-ulp": -np.spacing(ref), "+eps/2": eps / 2, "-eps/2": -eps / 2, "+2eps": 2 * eps,
+            "-2eps": -2 * eps, "+0.9eps": 0.9 * eps, "-0.9eps": -0.9 * eps, "+1.1eps": 1.1 * eps, "-1.1eps": -1.1 * eps,
+            "+half_step": half, "-half_step": -half}[name]
+
+
+def _every_step_runner(kind, clip):
+    """test_util.solve_adaptive_save_every_step (native Python loop around the public RejectionLoop) on the scripted solver."""
+    key = ("every", kind, clip)
+    if key in _CACHE:
+        return _CACHE[key]
+    import jax.numpy as jnp
+
+    from probdiffeq.util import test_util
+
+    log = Log()
+    FakeSolver, make_error, make_control = _parts(kind, log)
+    log.watch()
+
+    def call(T, dt0, eps, breaks, values, p, cparams):
+        import time
+
+        solve = test_util.solve_adaptive_save_every_step(FakeSolver(), make_error(jnp.asarray(breaks), jnp.asarray(values), float(p)),
+                                                         control=make_control([float(c) for c in cparams]), clip_dt=clip)
+        log.take()
+        log.last = time.time() + 120.0
+        try:
+            with common.lib_call("solve_adaptive_save_every_step(scripted)"):
+                sol = solve(jnp.zeros(()), 0.0, float(T), atol=1.0, rtol=1.0, dt0=float(dt0), eps=float(eps))
+                out = [np.asarray(sol.t), np.asarray(sol.u), np.asarray(sol.num_steps)]
+        finally:
+            log.last = None
+        ev, over = log.take()
+        return out, ev, over
+
+    _CACHE[key] = call
+    return call
+
+
+def _check_every_step(res, case, breaks, values, cparams, step_ends):
+    kind, clip, eps = case["kind"], case["clip"], case["eps"]
+    k = min(case["end"]["step"], len(step_ends)) - 1
+    prev = step_ends[k - 1] if k > 0 else 0.0
+    T = step_ends[k] + _delta(case["end"]["delta"], eps, step_ends[k], half=0.5 * (step_ends[k] - prev))
+    if not T > 10 * eps:
+        raise common.Inconclusive("final time not after the initial time")
+    res.label(f"end:{case['end']['delta']}")
+    (ts, us, nsteps), ev, over = _every_step_runner(kind, clip)(T, case["dt0"], eps, breaks, values, case["p"], cparams)
+    if over:
+        raise common.Inconclusive("attempt budget exhausted")
+    _monitor(res, case, [0.0, T], ts, us, nsteps, ev, mode="every_step")
+    return res
+
+
+def _machine_runner(kind, clip):
+    """The public RejectionLoop driven one call at a time (what solve_adaptive_save_at's `advance` does), so that
+    the next requested time can depend on the loop's current state."""
+    key = ("machine", kind, clip)
+    if key in _CACHE:
+        return _CACHE[key]
+    import jax
+    import jax.numpy as jnp
+
+    from probdiffeq import ivpsolve
+
+    log = Log()
+    FakeSolver, make_error, make_control = _parts(kind, log)
+    solver = FakeSolver()
+    log.watch()
+
+    def mk_loop(breaks, values, p, cparams):
+        return ivpsolve.RejectionLoop(solver=solver, clip_dt=clip, error=make_error(breaks, values, p), control=make_control(cparams),
+                                      while_loop=jax.lax.while_loop)
+
+    @jax.jit
+    def init(dt0, breaks, values, p, cparams):
+        s0 = solver.init(t=jnp.zeros(()), u=jnp.zeros(()), damp=0.0)
+        return mk_loop(breaks, values, p, cparams).init(s0, dt=dt0)
+
+    @jax.jit
+    def apply(state, t1, eps, breaks, values, p, cparams):
+        return mk_loop(breaks, values, p, cparams).loop(state, t1=t1, atol=1.0, rtol=1.0, eps=eps, damp=0.0)
+
+    _CACHE[key] = (log, init, apply)
+    return _CACHE[key]
+
+
+def _target(op, sf, dt, last, eps):
+    k = op["kind"]
+    if k == "at_proposal":     # the end of the step the controller is about to propose (+- a little)
+        t = sf + dt + _delta(op["delta"], eps, sf + dt)
+    elif k == "inside_proposal":
+        t = sf + op["frac"] * dt
+    elif k == "far":
+        t = sf + (1.0 + 4.0 * op["frac"]) * 2.0 * dt
+    elif k == "near_now":      # at / just ahead of / just behind the time the loop has reached
+        t = sf + _delta(op["delta"], eps, sf)
+    elif k == "in_step":       # inside the step that has overshot the previous request (several requests in one step)
+        t = last + op["frac"] * (sf - last) if sf > last else sf + op["frac"] * dt
+    else:                      # closer than eps to the previous request
+        t = last + 0.4 * eps
+    if not t > last:
+        t = last + 0.4 * eps
+    return float(t)
+
+
+def _check_machine(res, case, breaks, values, cparams):
+    import time
+
+    import jax
+    import jax.numpy as jnp
+
+    kind, clip, eps = case["kind"], case["clip"], case["eps"]
+    log, init, apply = _machine_runner(kind, clip)
+    a = (jnp.asarray(breaks), jnp.asarray(values), float(case["p"]), jnp.asarray(cparams))
+    log.take()
+    log.last = time.time() + 120.0
+    targets, sols, last = [], [], 0.0
+    try:
+        with common.lib_call("RejectionLoop.init/loop(scripted)"):
+            state = init(float(case["dt0"]), *a)
+            for op in case["ops"]:
+                sf, dt = float(state.step_from.t), float(state.dt)
+                t1 = _target(op, sf, dt, last, eps)
+                res.label(f"op:{op['kind']}")
+                calls = 0
+                while True:  # `advance` of solve_adaptive_save_at: always step >= 1x into the loop, continue while step_from.t + eps < t1
+                    sol, state = apply(state, t1, float(eps), *a)
+                    calls += 1
+                    if log.over or calls > ATTEMPT_BUDGET or log.reports > REPORT_BUDGET:
+                        break
+                    if not float(state.step_from.t) + eps < t1:
+                        break
+                if log.over or calls > ATTEMPT_BUDGET:
+                    raise common.Inconclusive("attempt budget exhausted")
+                sols.append(sol)
+                targets.append(t1)
+                last = t1
+    finally:
+        log.last = None
+    ev, over = log.take()
+    if over:
+        raise common.Inconclusive("attempt budget exhausted")
+    ts = np.asarray([0.0] + [float(s_.t) for s_ in sols])
+    us = np.asarray([0.0] + [float(s_.u) for s_ in sols])
+    nsteps = np.asarray([int(s_.num_steps) for s_ in sols])
+    _monitor(res, case, [0.0] + targets, ts, us, nsteps, ev)
+    return res
+
+
+def _monitor(res, case, save_at, ts, us, nsteps, ev, mode="save_at"):
     kind, clip, eps = case["kind"], case["clip"], case["eps"]
     fmin, fmax = case["factor_min"], case["factor_max"]
     ulp4 = 8 * np.finfo(float).eps
@@ -330,6 +530,7 @@ def _monitor(res, case, save_at, ts, us, nsteps, ev):
     reports = []                               # (kind, t, from_t, to_t, num_steps)
     accepted_before_report = []
     n_acc = n_rej = 0
+    step_ends_seen = []                        # ends of the accepted attempts, in order
     last_rejected = None                       # (t, dt) of the previous attempt if it was rejected
     next_ckpt = 1                              # index into save_at of the checkpoint being advanced to
     i = 0
@@ -381,6 +582,7 @@ def _monitor(res, case, save_at, ts, us, nsteps, ev):
                 if t_new != t_cur:
                     res.violate("I1:time", f"accepted attempt ends at {t_new}, expected {t_cur}")
                 mem_expected = ep
+                step_ends_seen.append(t_cur)
                 est_cur = est_in + 1.0
                 last_rejected = None
             else:
@@ -403,6 +605,9 @@ def _monitor(res, case, save_at, ts, us, nsteps, ev):
     if clip_taken:
         res.label("clip_taken")
     res.nontrivial = n_rej >= 1 and len(reports) >= 1
+
+    if mode == "every_step":
+        return _outputs_every_step(res, case, save_at[-1], ts, us, nsteps, reports, step_ends_seen)
 
     # I5: every requested time is reported exactly once, in order, at that time up to eps
     K = len(save_at)
@@ -442,3 +647,47 @@ def _monitor(res, case, save_at, ts, us, nsteps, ev):
         prev_attempts = nb
     if skipped:
         res.label("ckpt_skipped_without_step")
+
+
+def _outputs_every_step(res, case, T, ts, us, nsteps, reports, ends):
+    """save-every-step driver: the output is the initial time, the end of every accepted step before the final time, and the
+    final time - each exactly once, in order; the final time is reported at that time up to eps; step counts count accepted attempts."""
+    eps = case["eps"]
+    if len(reports) != 1:
+        res.violate("I5:reports(every_step)", f"the final time was reported {len(reports)} times (must be exactly once); accepted step ends {ends[-3:]}, final time {T!r}")
+        return
+    r = reports[0]
+    res.label("branch:at_t1" if r[0] == "interp_at" else "branch:beyond")
+    if not (r[2] - eps <= r[1] <= r[3] + eps):
+        res.violate("I6:bracket", f"interpolation at {r[1]} outside [{r[2]}, {r[3]}] (+- eps)")
+    expected = [0.0] + [e for e in ends[:-1]] + [T]
+    if len(ts) != len(expected):
+        res.violate("I5:count(every_step)", f"{len(ts)} reported times for {len(ends)} accepted steps")
+        return
+    if np.any(np.asarray(ts[:-1]) != np.asarray(expected[:-1])):
+        res.violate("I5:steps(every_step)", "reported times are not the ends of the accepted steps")
+    if abs(ts[-1] - T) > eps * (1 + 1e-9):
+        res.violate("I5:time", f"final time {T!r} reported at {ts[-1]!r} (eps={eps})")
+    if np.any(np.diff(ts) <= 0):
+        res.violate("I5:order", "reported times are not increasing")
+    if np.any(np.abs(us - ts) > 1e-9 * (1 + np.abs(ts))):
+        res.violate("I5:state", "reported state does not belong to the reported time")
+    want = list(range(1, len(ends))) + [len(ends)]
+    if [int(x) for x in nsteps] != want:
+        res.violate("I7:num_steps", f"reported step counts {[int(x) for x in nsteps][-4:]} vs accepted attempts {want[-4:]}")
+
+
+def pinned_cases(ctx):
+    """Regressions of repaired findings (replays/known/C06_*), bypassing Hypothesis."""
+    import json
+    import os
+
+    if ctx.shard != 0:
+        return []
+    out = []
+    kdir = os.path.join(common.VERIF, "replays", "known")
+    for name in sorted(os.listdir(kdir)) if os.path.isdir(kdir) else []:
+        if name.startswith("C06_"):
+            with open(os.path.join(kdir, name)) as f:
+                out.append((name, json.load(f)["case"]))
+    return out
